@@ -21,7 +21,7 @@ SCOPE = ('(a) per-object converters of the three encodings run on an object whos
          "space's alphabet, every pose and held item: every key has the declared shape and dtype kind, satisfies Space.contains, and lies in "
          'the gym Box/Dict space built by outer_space_to_gym_space; (c) the normalised agent pose lies in [-1, 1] for every position of every shape 2x2..6x6')
 BOUNDS = {
-    'quick': dict(spaces='7 type sets (the 5 shipped ones, doors-only, all representable types; observation side also with Box) x 5 colour sets x 3 representations x {state, observation}',
+    'quick': dict(gym_layer='2x2 world: arrays inside the newly advertised space after switching representation mid-episode, with earlier reads', spaces='7 type sets (the 5 shipped ones, doors-only, all representable types; observation side also with Box) x 5 colour sets x 3 representations x {state, observation}',
                   per_object='status and colour symbolic, type forked', whole='grid shapes 2x2, 2x3; view shapes 1x1, 2x3, 3x3; distinguished cell at every position; spaces with more than 8 objects vary cell content, pose and held item one at a time'),
     'thorough': dict(spaces='same', per_object='same', whole='plus 3x3 / 3x5'),
 }
